@@ -338,6 +338,11 @@ func (r *Reader) Read(v interface{}) error {
 		return r.err
 	}
 
+	// 目标为 nil 指针时，下面的类型分支会在读取后解引用而 panic
+	if rv := reflect.ValueOf(v); rv.Kind() == reflect.Ptr && rv.IsNil() {
+		return fmt.Errorf("must pass a non-nil pointer, got %T", v)
+	}
+
 	switch ptr := v.(type) {
 	case *byte:
 		// byte 和 uint8 是同一类型，统一处理
